@@ -110,9 +110,20 @@ def universe():
         ("def g(g_a: bool, y: bool) -> bool:\n    return g_a and not y\n", "def caller(a: bool, b: bool) -> bool:\n    return g(b, a)\n"),
         ("def g(x: bool, y: bool) -> bool:\n    return x and not y\n", "def caller(x: bool, y: bool) -> bool:\n    return g(y, x)\n"),
     ]
+    # containers with more than ten elements: element 1 and elements 10, 11 share a name prefix
+    wide = [
+        (CALLEES["ii"][0], "def caller(t: Qlist[Qint[2], 12]) -> Qint[2]:\n    return g(t[1])\n"),
+        (CALLEES["i4"][0], "def caller(t: Qlist[Qint[2], 12]) -> Qint[4]:\n    return g(t[1])\n"),
+        (CALLEES["iii"][0], "def caller(t: Qlist[Qint[2], 12]) -> Qint[2]:\n    return g(t[11], t[1])\n"),
+        (CALLEES["bb"][0], "def caller(t: Qlist[bool, 14]) -> bool:\n    return g(t[1], t[12]) ^ t[10]\n"),
+        (CALLEES["tb"][0], "def caller(t: Qlist[Tuple[bool, bool], 11]) -> bool:\n    return g(t[1]) ^ g(t[10])\n"),
+    ]
     for csrc, caller in cross:
         for mech in ("defs", "inline"):
             items.append({"fam": "compose-naming", "mech": mech, "callee": csrc, "caller": caller})
+    for csrc, caller in wide:
+        for mech in ("defs", "inline"):
+            items.append({"fam": "compose-naming", "mech": mech, "callee": csrc, "caller": caller, "must_accept": True})
     # results of calls held in variables, re-assigned under a condition, then indexed (two callees)
     F2 = "def g(x: Qint[2]) -> Tuple[Qint[2], bool]:\n    return (x + 1, x[0])\n"
     K2 = "def k(x: Qint[2]) -> Tuple[Qint[2], bool]:\n    return (x, x[1])\n"
@@ -216,6 +227,10 @@ def check_item(spec):
             res.update(cls="constant-oracle")
             return res
         res.update(cls="lib-reject", note="%s: %s" % (type(e).__name__, str(e)[:100]))
+        if spec.get("must_accept"):
+            # plain well-typed calls (argument and formal of the same declared type): refusing the
+            # call is not composition either
+            res["findings"].append({"kind": "valid-call-rejected", "what": "%s: %s" % (type(e).__name__, str(e)[:120]), "cex": {}, "replayed": True})
         return res
     # frame condition: the callee object is unchanged
     fp1 = fingerprint(callee)
